@@ -313,7 +313,7 @@ Proof. vm_compute. reflexivity. Qed.
 (* non-vacuity of the channel renaming: ConstantPT on inner channel 1 (amplitude p0), renamed to outer channel 2.
    Dropping outer channel 2 drops the inner channel (nothing evaluated, no waveform); dropping an outer channel
    called 1 does not (the amplitude is needed: p0 missing) *)
-Definition ex_ren : pt := Map (Ren (Atom KConst [1%N] [EVar 0%N] (EConst 2) [] []) [(1%N, 2%N)]) [] [].
+Definition ex_ren : pt := Map (Ren (Atom KConst [1%N] [EVar 0%N] (EConst 2) [] []) [(1%N, Some 2%N)]) [] [].
 Example ex_ren_drop : create_program ex_ren [] [2%N] = Ok false /\ create_program ex_ren [] [1%N] = Err Missing
   /\ create_program ex_ren [(0%N, 1%Q)] [1%N] = Ok true.
 Proof. repeat split; vm_compute; reflexivity. Qed.
@@ -346,6 +346,21 @@ Example ex_hash_collision :
   /\ some_violated ex_hash_loop (lookup (SDict [(1%N, 1%Q)])) [] = true
   /\ create_program ex_hash_rep [(1%N, (-1)%Q)] [] = Ok true
   /\ create_program ex_hash_rep [(1%N, (-2)%Q)] [] = Err Violated.
+Proof. repeat split; vm_compute; reflexivity. Qed.
+
+(* (3) time dependent ParallelChannelPT values (ParT): ParallelChannelPT(ConstantPT(2, {7: x1}), {8: x2 * t}).  The
+       value is needed iff channel 8 is kept; a missing x2 is an error (AssertionError in the code), unless it is
+       multiplied by a supplied 0 (the known finding, excluded by the guard); below an AtomicMultiChannelPT the same *)
+Definition ex_part (e : expr) : pt := ParT (Atom KConst [7%N] [EVar 1%N] (EConst 2) [] []) [(8%N, e)].
+Example ex_part_runs :
+  pnames (construct (ex_part (EVar 2%N))) = [1%N; 2%N]
+  /\ create_program (ex_part (EVar 2%N)) [(1%N, 1%Q); (2%N, 0%Q)] [] = Ok true
+  /\ create_program (ex_part (EVar 2%N)) [(1%N, 1%Q)] [] = Err Other
+  /\ create_program (ex_part (EVar 2%N)) [(1%N, 1%Q)] [8%N] = Ok true
+  /\ create_program (ex_part (EVar 2%N)) [(1%N, 1%Q); (9%N, 5%Q)] [8%N] = Ok true
+  /\ create_program (AMC [ex_part (EVar 2%N)] [] []) [(1%N, 1%Q)] [] = Err Other
+  /\ guard_C03_function_zero (ex_part (EMul (EVar 2%N) (EVar 3%N))) (lookup (SDict [(1%N, 1%Q); (2%N, 0%Q)])) [] = false
+  /\ create_program (ex_part (EMul (EVar 2%N) (EVar 3%N))) [(1%N, 1%Q); (2%N, 0%Q)] [] = Ok true.
 Proof. repeat split; vm_compute; reflexivity. Qed.
 
 Print Assumptions construct_obs.
